@@ -5,6 +5,7 @@
 -/
 import Miden.Lemmas.Merkle
 import Miden.Lemmas.Step
+import Miden.Lemmas.U64Div
 namespace Miden.C09
 open Miden.Vm Miden.Merkle
 
@@ -125,6 +126,39 @@ theorem advice_order (vm : Vm) (t0 t1 t2 t3 t4 t5 t6 t7 : Nat) (adv : List Nat)
 theorem advice_exhausted (vm : Vm) (ha : vm.adv = []) :
     vm.step .advpop = .error .adviceExhausted := by
   simp [step, stepCore, ha]
+
+
+/-! ### The u64 division hint cannot change the result
+
+`std::math::u64::div / mod / divmod` take quotient and remainder from the advice stack
+(`adv.push_u64div`) and check them in-VM.  For the operation lists regenerated from u64.masm: two
+machine states that differ only in what the host supplies (any tapes of any length, any field
+elements) and both complete, complete with the same stack — the exact quotient / remainder (the
+`…_sound` theorems of `Lemmas/U64Div.lean`, restated in `Props/C16.lean`). -/
+
+theorem u64_div_result_independent_of_hint (vm vm2 : Vm) (bh bl ah al : Nat) (r out out2 : List Nat)
+    (hs : vm.stack = bh :: bl :: ah :: al :: r) (hs2 : vm2.stack = bh :: bl :: ah :: al :: r)
+    (h3 : bh < two32) (h2 : bl < two32) (h1 : ah < two32) (h0 : al < two32) (hr : 16 ≤ r.length)
+    (h : stackRun Generated.u64_div vm = .ok out) (h' : stackRun Generated.u64_div vm2 = .ok out2) :
+    out = out2 := by
+  rw [(U64Div.u64_div_sound vm bh bl ah al r out hs h3 h2 h1 h0 hr h).2,
+    (U64Div.u64_div_sound vm2 bh bl ah al r out2 hs2 h3 h2 h1 h0 hr h').2]
+
+theorem u64_mod_result_independent_of_hint (vm vm2 : Vm) (bh bl ah al : Nat) (r out out2 : List Nat)
+    (hs : vm.stack = bh :: bl :: ah :: al :: r) (hs2 : vm2.stack = bh :: bl :: ah :: al :: r)
+    (h3 : bh < two32) (h2 : bl < two32) (h1 : ah < two32) (h0 : al < two32) (hr : 16 ≤ r.length)
+    (h : stackRun Generated.u64_mod vm = .ok out) (h' : stackRun Generated.u64_mod vm2 = .ok out2) :
+    out = out2 := by
+  rw [(U64Div.u64_mod_sound vm bh bl ah al r out hs h3 h2 h1 h0 hr h).2,
+    (U64Div.u64_mod_sound vm2 bh bl ah al r out2 hs2 h3 h2 h1 h0 hr h').2]
+
+theorem u64_divmod_result_independent_of_hint (vm vm2 : Vm) (bh bl ah al : Nat) (r out out2 : List Nat)
+    (hs : vm.stack = bh :: bl :: ah :: al :: r) (hs2 : vm2.stack = bh :: bl :: ah :: al :: r)
+    (h3 : bh < two32) (h2 : bl < two32) (h1 : ah < two32) (h0 : al < two32) (hr : 16 ≤ r.length)
+    (h : stackRun Generated.u64_divmod vm = .ok out) (h' : stackRun Generated.u64_divmod vm2 = .ok out2) :
+    out = out2 := by
+  rw [(U64Div.u64_divmod_sound vm bh bl ah al r out hs h3 h2 h1 h0 hr h).2,
+    (U64Div.u64_divmod_sound vm2 bh bl ah al r out2 hs2 h3 h2 h1 h0 hr h').2]
 
 -- Non-vacuity: a state satisfying the hypotheses of `advice_order` exists and pops in order.
 example : (({ stack := List.replicate 16 0, adv := [11, 12, 13, 14, 15, 16, 17, 18] } : Vm).step
